@@ -5,7 +5,7 @@ EXTENDS Wire, Json
 VARIABLE l
 Trace == ndJsonDeserialize("trace.ndjson")
 Pairs(q) == [i \in DOMAIN q |-> <<q[i][1], q[i][2]>>]
-CaseOf(r) == [fields |-> Pairs(r.fields), lead |-> r.lead, delta |-> r.delta, dict |-> r.dict, xml |-> r.xml]
+CaseOf(r) == [fields |-> Pairs(r.fields), lead |-> r.lead, delta |-> r.delta, dict |-> r.dict, xml |-> r.xml, gidx |-> r.gidx]
 ObsOf(r) == [ok |-> r.obs.ok, hdr |-> Pairs(r.obs.hdr), body |-> Pairs(r.obs.body), trl |-> Pairs(r.obs.trl),
              order |-> Pairs(r.obs.order), bytesSame |-> r.obs.bytesSame]
 TraceInit == l = 1 /\ t = 8 /\ d = "none"
